@@ -2,6 +2,8 @@ import H3.Drv.Util
 import H3.Model.Settings
 import H3.Model.Config
 import H3.Spec.Settings
+import H3.Model.UniAccept
+import H3.Model.WriteBuf
 /-! Driver engine `set` (C13).  Case lines and output formats: see `harness/src/e_c13.rs`.
 
     Grease: h3 draws the grease identifier at random.  A `set cfg` line with grease on carries
@@ -208,6 +210,75 @@ def encCase (ps : List (Nat × Nat)) : String :=
   let sp := if okIds && sz ≤ 39 then s!"ins * ent {entStr ps} get0 * hdr * rt ent {entStr ps}" else "?"
   s!"{ins} {hdr} ## {sp}"
 
+/-- `set cfgw`: at most this many grants (harness: `CFGW_ROUNDS`) -/
+def CFGW_ROUNDS : Nat := 96
+
+/-- the acceptance script of `set cfgw`: the pattern, cycled, `CFGW_ROUNDS` grants in all -/
+def cycle (pat : List Nat) (n : Nat) : List Nat :=
+  (List.range n).map (fun i => pat.getD (i % pat.length) 0)
+
+/-- number of polls in which the transport took at least one byte -/
+def piecesOf : H3.WriteBuf.WB → List Nat → Nat
+  | _, [] => 0
+  | w, k :: ks =>
+    match w.step k with
+    | none => 0
+    | some (o, w') => (if o.isEmpty then 0 else 1) + piecesOf w' ks
+
+def parsePattern (s : String) : Option (List Nat) :=
+  let l := (s.splitOn ",").mapM (fun t => t.toNat?.bind (fun k => if k ≤ 64 then some k else none))
+  l.bind (fun l => if l.isEmpty || l.length > 64 then none else some l)
+
+/-- `set cfgw`: as `cfgCase`, the control stream header drained through the `WriteBuf` model
+    (`H3.WriteBuf`, C14) by the acceptance script.  By `H3.WriteBuf.drain_spec` /
+    `C13_sent_settings_any_acceptance` the bytes do not depend on the script. -/
+def cfgwCase (role : String) (pat : List Nat) (l : CfgLine) : String :=
+  let grease := l.grease.getD DEFAULT_SEND_GREASE
+  if grease != (l.seed.isSome && l.gid.isSome) || l.seed.isSome != l.gid.isSome then "bad-op"
+  else if role != "server" && role != "client" then "bad-op"
+  else if role == "client" && (l.wt.isSome || l.wts.isSome) then "bad-op"
+  else
+    match (if grease then l.gid.bind greaseN? else some 0) with
+    | none => "bad-op"
+    | some n =>
+      let r : Record :=
+        { mfs := l.mfs.getD Record.default.mfs, wt := l.wt.getD Record.default.wt,
+          ec := l.ec.getD Record.default.ec, dg := l.dg.getD Record.default.dg,
+          wts := l.wts.getD Record.default.wts }
+      let script := cycle pat CFGW_ROUNDS
+      let m := match toSettings { grease := grease, settings := r } n with
+        | .error _ => s!"err wrote=- closed {codeName CODE_H3_INTERNAL_ERROR} pieces=0"
+        | .ok s =>
+          let wb := (H3.WriteBuf.WB.new none).putOpt (controlHeader? s)
+          match wb, H3.WriteBuf.write wb script with
+          | some w, .ready b => s!"ok {toHex b} {peerView b} pieces={piecesOf w script}"
+          | some w, .pending b _ => s!"pending wrote={toHex b} pieces={piecesOf w script}"
+          | _, _ => "panic"
+      -- specification: as for `set cfg`, whatever the acceptance pattern — provided the transport has
+      -- taken at least 42 bytes by the end of the script (no header is longer, `C13_sent_settings`);
+      -- with less credit setup may still be waiting: no demand
+      let sp :=
+        if r.mfs ≥ 2^62 || r.wts ≥ 2^62 then "err wrote=- **"
+        else if (script.foldl (· + ·) 0) < 42 then "?"
+        else
+          let want : List (Nat × String) :=
+            [(H3.Spec.Settings.MAX_FIELD_SECTION_SIZE, toString r.mfs),
+             (H3.Spec.Settings.ENABLE_CONNECT_PROTOCOL, b01 r.ec),
+             (H3.Spec.Settings.H3_DATAGRAM, b01 r.dg),
+             (H3.Spec.Settings.ENABLE_WEBTRANSPORT, b01 r.wt),
+             (H3.Spec.Settings.WEBTRANSPORT_MAX_SESSIONS, toString r.wts)]
+            ++ (if grease then [(l.gid.getD 0, "*")] else [])
+          let sorted := want.mergeSort (fun a b => a.1 ≤ b.1)
+          " ".intercalate (["ok", "*", "pairs"] ++ sorted.flatMap (fun p => [toString p.1, p.2]) ++ ["*"])
+      m ++ " ## " ++ sp
+
+/-- `set applyq`: is this a stream header on which `AcceptRecvStream::poll_type` answers `Pending`
+    (model: `H3.UniAccept.pollType` over the bytes delivered so far)? -/
+def headerWaits (b : Bytes) : Bool :=
+  match H3.UniAccept.pollType {} (if b.isEmpty then [] else [.chunk b]) with
+  | (.pending, _, _) => true
+  | _ => false
+
 def tailStr : Option Nat → String
   | none => "open"
   | some c => s!"closed {codeName c}"
@@ -270,6 +341,28 @@ def handle : List String → String
         | none => "?"
         | some (r, t) => s!"before={defaultShort} mid={if two then defaultShort else r} after={r} {t}"
       m ++ " ## " ++ sp
+    | _, _ => "bad-op"
+  | ["set", "applyq", role, h, cut, pre] =>
+    match parseHex h, cut.toNat?, (pre.splitOn ",").mapM parseHex with
+    | some p, some cut, some pres =>
+      if role != "server" && role != "client" then "bad-op"
+      else if pres.isEmpty || pres.length > 8 || !pres.all headerWaits then "bad-op" else
+      let total := 1 + (settingsFrame p).length
+      let two := 0 < cut && cut < total
+      -- the streams as `poll_accept_recv` finds them: the waiting ones, then the control stream
+      let ws : List Waiting := pres.map (fun _ => Waiting.header) ++ [.control p]
+      let (c, code) := receiveScan Cell.new ws
+      let after := recShort c.get
+      let mid := if two then recShort Cell.new.get else after
+      let m := s!"before={recShort Cell.new.get} mid={mid} after={after} {tailStr code}"
+      let sp := match applySpec? p with
+        | none => "?"
+        | some (r, t) => s!"before={defaultShort} mid={if two then defaultShort else r} after={r} {t}"
+      m ++ " ## " ++ sp
+    | _, _, _ => "bad-op"
+  | "set" :: "cfgw" :: role :: pat :: rest =>
+    match parseCfg rest {}, parsePattern pat with
+    | some l, some pat => cfgwCase role pat l
     | _, _ => "bad-op"
   | ["set", "apply2", role, h1, h2] =>
     match parseHex h1, parseHex h2 with
